@@ -24,16 +24,27 @@ func verifExpectRows(rm RelationManager, rows [][]interface{}, tag string) {
 // H08-disk: values supplied as direct statement values - any int32 / int64 /
 // bool, NULLs, strings of 0-3 arbitrary bytes (all 256 byte values) - are read
 // back bit for bit from the cache, after flush + cold reload (evict/reload),
-// and after a crash + recovery; an UPDATE of the row likewise.
+// and after a crash + recovery; an UPDATE of the row likewise. The VARCHAR
+// column is declared with length `decl`: strings longer than declared are
+// accepted by the engine today and must then read back in full as well.
 func verifH_C08_disk() {
 	slen := verifParam("slen", 2)
+	decl := verifParam("decl", 255) // declared length of the VARCHAR column
 	rs := verifNewDB(0)
-	verifAssert(EvaluateCreateTable(verifCreateStmt("t", verifStdCols), rs) == nil, "create")
+	ct := verifCreateStmt("t", verifStdCols)
+	ct.Elements[2].ColumnDefinition.DataType = sql.CharacterStringType{Len: int64(decl), Type: sql.T_VARCHAR}
+	verifAssert(EvaluateCreateTable(ct, rs) == nil, "create")
 	row := []interface{}{int64(verifI32("a")), verifI64("b"), verifString("s", slen), verifBool("f")}
 	if k := verifChoice("null", 5); k > 0 {
 		row[k-1] = nil
 	}
 	_, err := EvaluateInsert(verifInsertStmt("t", nil, [][]interface{}{row}), rs)
+	if slen > decl && err != nil {
+		// a string longer than the declared length may be refused (today it is
+		// accepted and stored in full); refused means nothing is stored
+		verifExpectRows(rs, nil, "refused/")
+		return
+	}
 	verifAssert(err == nil, "insert-ok")
 	verifExpectRows(rs, [][]interface{}{row}, "cached/")
 	step := verifChoice("then", 3)
